@@ -105,6 +105,7 @@ func (e *Engine) VerifyFunc(fn *ssa.Function, ct *spec.FuncContract) (res *FuncR
 				continue
 			}
 			sc.Assert(v.T.S)
+			f.noteHeldAtEntry(env, entry, r.Expr)
 		}
 	}
 	// vacuity canary: the assumptions at entry are satisfiable
